@@ -43,6 +43,9 @@ func c07Corpus(t *testing.T) [][]byte {
 	for _, h := range []string{
 		"b5ee9c7201010301002000021000000000000000000102001000000000000000190010000000000000001a",
 		"b5ee9c72010101010002000000",
+		// ordinary root -> pruned branch child (mask 1) with a full 36-byte body, and the same with a 1-byte body
+		"b5ee9c720101020100290001000128480101" + "000102030405060708090a0b0c0d0e0f101112131415161718191a1b1c1d1e1f" + "0003",
+		"b5ee9c7201010201000600010001280201",
 	} {
 		b, _ := hex.DecodeString(h)
 		out = append(out, b)
